@@ -43,6 +43,8 @@ def cases(tier):
     out.append("double/0/n2")
     for order in (3, 5, 7, 9, 13):
         out.append(f"padecoef/{order}/n1")
+    # whole routine incl. the data-dependent scaling/doubling count (concrete step: tiny -> clamp, large -> doublings)
+    out += ["full/9/small", "full/13/small"]
     if tier == "thorough":
         for ssm in cm.SSMS:
             out.append(f"iwp/{ssm}/q2d2")
@@ -50,6 +52,7 @@ def cases(tier):
             out.append(f"merge/{ssm}/q2d1")
         for order in (5, 7, 9, 13):
             out.append(f"pade/{order}/n4")
+        out += ["full/7/small", "full/13/unit"]
     return out
 
 
@@ -229,6 +232,41 @@ def build_padecoef(order):
     return make, goals
 
 
+def build_full(order, tag):
+    """the public exp_gram_cholesky on the nilpotent drift with a CONCRETE step (so the data-dependent number of
+    scaling/doubling steps is a concrete integer decided by the real code) and a symbolic noise scale"""
+    n = 2
+    q = n - 1
+    hval = {"small": Fraction(1, 64), "unit": Fraction(1), "large": Fraction(8)}[tag]
+
+    def make(dom):
+        import jax.numpy as jnp
+        from probdiffeq.util import gram_util
+        from probdiffeq.backend import linalg
+        sg = sym_array(dom, "sig", (), positive=True)
+
+        def fn(sg):
+            pl = getattr(gram_util, f"pade_and_legendre_{order}")()
+            A = float(hval) * jnp.diag(jnp.ones((n - 1,)), k=1)
+            B = sg * jnp.eye(n)[:, -1:]
+            B = jnp.concatenate([jnp.zeros((n, n - 1)), B], axis=1)
+            eA, L = gram_util.exp_gram_cholesky(pade_legendre=pl, solve=linalg.solve_lu)(A, B)
+            return eA, L
+        return fn, (sg,)
+
+    def goals(args, out, orc):
+        (sg,) = args
+        eA, L = out
+        s = sc.sc(orc.arr(sg))
+        hh = Poly.const(hval) if orc.sym else float(hval)
+        one = Poly.const(1) if orc.sym else 1.0
+        Ao, Qo = iwp_closed_form(orc, q, 1, hh, np.array([one], dtype=object if orc.sym else float), s)
+        Go = Qo * (Poly.const(1 / hval) if orc.sym else 1.0 / float(hval))
+        Lo = orc.arr(L)
+        return {"e^A": (orc.arr(eA), Ao), "L L^T = Gramian": (Lo.dot(Lo.T), Go)}
+    return make, goals
+
+
 def build_double(n):
     def make(dom):
         from probdiffeq.util import gram_util
@@ -269,6 +307,8 @@ def _case(case_id, tier):
         make, goals = build_pade(int(a), int(b[1:]))
     elif kind == "padecoef":
         make, goals = build_padecoef(int(a))
+    elif kind == "full":
+        make, goals = build_full(int(a), b)
     else:
         make, goals = build_double(int(b[1:]))
     return PCase("C09/" + case_id, make, goals, budget_s=300 if tier == "quick" else 1500)
